@@ -1,5 +1,6 @@
 CONSTANTS
   MaxTx = 3
+  MaxInv = 3
 INIT Init
 NEXT Next
 INVARIANTS TraversalOK PrefixOK EachPartOnce InvalidExactly
